@@ -15,7 +15,7 @@ func RouteSpecs(thorough bool) []*spec.Spec {
 	// A: base path x method config
 	{
 		var svcs []*spec.Service
-		bases := []struct{ key, val string }{{"absent", "\x00"}, {"slash_api", "/api"}, {"api", "api"}, {"api_slash", "/api/"}, {"multi", "/api/v1"}}
+		bases := []struct{ key, val string }{{"absent", "\x00"}, {"slash_api", "/api"}, {"api", "api"}, {"api_slash", "/api/"}, {"multi", "/api/v1"}, {"root", "/"}, {"empty", ""}}
 		for i, b := range bases {
 			s := spec.Svc(fmt.Sprintf("Base%dService", i), b.val,
 				spec.RPCDefault(fmt.Sprintf("B%dDefault", i), "BodyReq", "Out"),
@@ -87,10 +87,14 @@ func RouteSpecs(thorough bool) []*spec.Spec {
 	// D: query placement on body verbs, renamed and required parameters
 	{
 		f := &spec.File{Messages: out1(
-			spec.M("MixReq", spec.F("id", "string"), spec.F("page", "int32").Q("p"), spec.F("must", "string").QReq("must"), spec.F("plain", "string").Q(""), spec.F("body_field", "string")),
+			spec.M("MixReq", spec.F("id", "string"), spec.F("page", "int32").Q("p"), spec.F("must", "string").QReq("must"), spec.F("plain", "string").Q(""), spec.F("body_field", "string"),
+				spec.F("tags", "string").Rep().Q("tag"), spec.F("nums", "int32").Rep().Q("n")),
+			spec.M("MixTags", spec.F("id", "string"), spec.F("tags", "string").Rep().Q("tag"), spec.F("nums", "int32").Rep().Q("n"), spec.F("page", "int32").Q("p"), spec.F("note", "string")),
 			spec.M("MixGet", spec.F("id", "string"), spec.F("page", "int32").Q("p"), spec.F("must", "string").QReq("must"), spec.F("plain", "string").Q("")),
 		), Services: []*spec.Service{spec.Svc("MixService", "/mix",
 			spec.RPC("MixPost", "MixReq", "Out", "POST", "/items/{id}"),
+			spec.RPC("MixTagsPost", "MixTags", "Out", "POST", "/tags/{id}"),
+			spec.RPC("MixTagsPut", "MixTags", "Out", "PUT", "/tags/{id}"),
 			spec.RPC("MixPatch", "MixReq", "Out", "PATCH", "/items/{id}"),
 			spec.RPC("MixGet", "MixGet", "Out", "GET", "/items/{id}"),
 			spec.RPC("MixDelete", "MixGet", "Out", "DELETE", "/items/{id}"),
